@@ -8,6 +8,7 @@ import (
 	"fmt"
 	gotoken "go/token"
 	"os"
+	"regexp"
 	"strings"
 	"testing"
 	"time"
@@ -66,7 +67,13 @@ func checkPositions(err error, fset *gotoken.FileSet, files map[string]string) *
 			continue
 		}
 		if !pos.IsValid() {
-			return vk.Bad("error-without-position:"+strings.TrimPrefix(fmt.Sprintf("%T", e), "*gogen."), "%T carries an invalid position: %q", e, e.Error())
+			cls := "error-without-position:" + strings.TrimPrefix(fmt.Sprintf("%T", e), "*gogen.")
+			if _, ok := e.(*gogen.CodeError); ok {
+				// CodeErrors come from many sites: one listed finding per message, not per type (the
+				// other two types are created at a single site each, without a position)
+				cls += "/" + gist(e.Error())
+			}
+			return vk.Bad(cls, "%T carries an invalid position: %q", e, e.Error())
 		}
 		p := fset.Position(pos)
 		name := strings.TrimPrefix(p.Filename, "/foo/")
@@ -79,6 +86,43 @@ func checkPositions(err error, fset *gotoken.FileSet, files map[string]string) *
 		}
 	}
 	return nil
+}
+
+// gist reduces a diagnostic to the first words of it that belong to the vocabulary of compiler
+// messages (operands, identifiers and literals drop out): the listed position-less errors are
+// identified by (error type, gist), so that another message losing its position is reported.
+var diagWords = map[string]bool{}
+
+func init() {
+	for _, w := range strings.Fields(`invalid operation non numeric type types cannot use as value in assignment undefined mismatched
+		operator not defined on missing return too many few arguments argument call to range over assign declared used unused label
+		import imported redeclared block duplicate case switch constant overflows truncated convert conversion nil untyped func method
+		field selector index slice map chan send receive defer expression statement function break continue goto fallthrough is of
+		for and or no new variables left side expected found must be lambda overload env string interpolation template recursive
+		literal struct array pointer interface failed match matches unmatched ambiguous multiple unknown unsupported unexpected
+		compile compiling load package module finding go has does implement have want got with without by variadic parameter
+		parameters result results values count length bound bounds boundtype initialization cycle refers itself embedded receiver
+		generic instantiate infer inferred comparable ordered address take indirect shift shifted operand division zero
+		extra init main name names already previous declaration other here builtin built append copy delete len cap make
+		panic print println real imag complex close recover unsafe`) {
+		diagWords[w] = true
+	}
+}
+
+var letters = regexp.MustCompile(`[A-Za-z]+`)
+
+func gist(msg string) string {
+	var out []string
+	for _, w := range letters.FindAllString(msg, -1) {
+		w = strings.ToLower(w)
+		if diagWords[w] {
+			out = append(out, w)
+			if len(out) == 5 {
+				break
+			}
+		}
+	}
+	return strings.Join(out, "-")
 }
 
 func compile(c Case) (v *vk.Verdict, in info) {
@@ -180,6 +224,9 @@ func TestCompile(t *testing.T) {
 			r.Sample(map[string]any{"base": p.Kind, "ops": p.Ops, "entry": entry})
 		}
 		if os.Getenv("VK_DISCOVER") != "" {
+			if v != nil {
+				fmt.Printf("DISCOVER %s | %s\n", v.Class, strings.SplitN(v.Detail, "\n", 2)[0])
+			}
 			if v = r.Judge(v); v != nil {
 				r.Class("would-fail:" + v.Class)
 				r.Fail("compile", c, v)
